@@ -600,6 +600,20 @@ def gen_C14(chk):
                 cid = chk.add_eval(net, k, mode, [f] if s == gen.render(f) else [s], ctx=ctx, tag="structured", netname=nm)
                 if s != gen.render(f):
                     chk.cases[cid]["ast_of_string"] = f
+        # batches whose formulae need different context labels (each label used by one formula only)
+        for j in range(cnt(chk, 8, 30)):
+            fs = [gen.random_formula(rng, rng.randint(1, 5), props, max_vars=2, wilds=("p",), w_hybrid=0.3),
+                  gen.random_formula(rng, rng.randint(1, 5), props, max_vars=2, wilds=("q",), doms=("d",), w_hybrid=0.5),
+                  gen.random_formula(rng, rng.randint(1, 4), props, max_vars=1)]
+            rng.shuffle(fs)
+            fs = fs[: rng.randint(2, 3)]
+            k = max(gen.quant_depth(f) for f in fs)
+            need = set()
+            for f in fs:
+                wl, dl = gen.labels_of(f)
+                need |= wl | dl
+            ctx = [(l, ctx_spec(rng)) for l in sorted(need) if rng.random() < 0.9]
+            chk.add_eval(net, k, "e" + rng.choice(["s", ""]), fs, ctx=ctx, tag="ext-batch", netname=nm)
         # deep nesting (bounded), long unary chains, many parentheses
         for depth in ([8, 32, 64] if not thorough(chk) else [8, 32, 64, 200]):
             chk.add_eval(net, 0, "s", ["(" * depth + props[0] + ")" * depth], tag="nesting", netname=nm)
